@@ -35,7 +35,7 @@ def exhaustive(tier):
 def required(tier):
     return {"answers_compared": 2500, "repeated_after_state_change": 800, "cache_hits_observed": 500,
             "state_changes": 300, "distinct_states": 15, "second_registry_touches": 20,
-            "redefinition_histories": 20, "keyword_activations": 50}
+            "redefinition_histories": 20, "keyword_activations": 50, "keyword_override_histories": 20, "redefining_context_histories": 8}
 
 
 NEWDEFS = ["vfu0 = 3 * meter = vf0", "vfu1 = 7 * vfu0", "vfu2 = 2 * pound * vfu1 / second ** 2",
@@ -44,7 +44,9 @@ NEWDEFS = NEWDEFS[:4] + ["dab = 5 * meter"]   # a NEW name that earlier lookups 
 # third step: an existing unit is defined AGAIN (on_redefinition='warn' is the default); every answer
 # memoised for the units built on it (vfu1, and later vfu2, vfu3, kilovfu0) must follow
 NEWDEFS = NEWDEFS[:2] + ["vfu0 = 4 * meter = vf0"] + NEWDEFS[2:]
-DEFNAMES = ("vfu0", "vfu1", "vfu0", "vfu2", "vfu3", "dab")
+# second step: a new PREFIX (to_compact, parse_units and conversions must take it into account at once)
+NEWDEFS = NEWDEFS[:1] + ["vpfx- = 1e33"] + NEWDEFS[1:]
+DEFNAMES = ("vfu0", "vpfx", "vfu1", "vfu0", "vfu2", "vfu3", "dab")
 SYSTEMS = ["mks", "cgs", "imperial", "SI", None]
 
 QUESTIONS = [
@@ -71,6 +73,9 @@ QUESTIONS = [
     ("convert", "jute", "tex"), ("convert", "number_english", "number_meter"),
     ("convert", "international_british_thermal_unit", "joule"), ("convert", "psi", "bar"),
     ("root", "reyn"), ("base", "ksi"), ("to_base", "horsepower", 2),
+    # answers that depend on the set of defined prefixes
+    ("compact", "meter", 2e35), ("compact", "vfu0", 5e34), ("parse_units", "vpfxmeter"),
+    ("convert", "vpfxmeter", "meter"), ("compact", "gram", 3e36),
     # 'dab' reads as decabarn until the history defines a unit of that name; afterwards the exact name wins
     ("parse_units", "dab"), ("convert", "dab", "meter"), ("convert", "dab", "barn"), ("dim", "dab"),
 ]
@@ -88,6 +93,12 @@ def shards(tier, seed):
     for i in range(10 if tier == "quick" else 24):
         out.append({"kind": "random", "name": f"random{i}", "n": 10 if tier == "quick" else 120,
                     "nit": "fraction" if i % 3 == 2 else "float"})
+    for i in range(2 if tier == "quick" else 6):
+        out.append({"kind": "redefctx", "name": f"redefctx{i}", "n": 4 if tier == "quick" else 30,
+                    "nit": "fraction" if i % 2 else "float"})
+    for i in range(2 if tier == "quick" else 6):
+        out.append({"kind": "ctxkw", "name": f"ctxkw{i}", "n": 15 if tier == "quick" else 200,
+                    "nit": "fraction" if i % 2 else "float"})
     for i in range(2 if tier == "quick" else 6):
         out.append({"kind": "redefine", "name": f"redefine{i}", "n": 12 if tier == "quick" else 150,
                     "nit": "fraction" if i % 2 else "float"})
@@ -237,7 +248,7 @@ def run_history(ops, world, rec, rng, tag, pool=None):
     defined_inside_redef = set()   # names defined while a redefining context was active (finding D18)
     fixed_pool = pool
     pool = rng.sample(QUESTIONS, 8)
-    pool[:3] = rng.sample(QUESTIONS[-19:-4], 3)   # always some dependants of the redefined unit
+    pool[:3] = rng.sample(QUESTIONS[-24:-9], 3)   # always some dependants of the redefined unit
     if any(o.startswith("ctx_") for o in ops):
         # histories that switch contexts always ask the questions those contexts answer
         pool[3] = ("convert", "nanometer", "terahertz")
@@ -265,6 +276,12 @@ def run_history(ops, world, rec, rng, tag, pool=None):
             trace.append(("enable", c))
             rec.count("state_changes")
             rec.count("keyword_activations")
+            continue
+        if op == "ctx_sp_on":
+            ureg.enable_contexts("sp")
+            stack.append("sp")
+            trace.append(("enable", "sp"))
+            rec.count("state_changes")
             continue
         if op == "ctx_rule_on":
             c = rng.choice(("sp", "energy", "boltzmann"))
@@ -371,13 +388,49 @@ def run_shard(spec, rec):
                     ops += ["q%d" % i for i in range(8)]
                 run_history(ops, world, rec, rng, "bfs")
         rec.sample({"bfs_prefix_example": list(itertools.islice(itertools.product(alphabet, repeat=spec["length"]), 5, 6))})
+    elif spec["kind"] == "redefctx":
+        # every question about a unit that depends on the unit redefined by the context 'vredef' (directly,
+        # or through symbols / aliases several definitions away) is asked before, inside and after it
+        deps = QUESTIONS[-24:-9]
+        for i in range(spec["n"]):
+            pool = [deps[(i * 8 + j) % len(deps)] for j in range(8)]
+            allq = [f"q{j}" for j in range(8)]
+            ops = allq + ["ctx_redef_on"] + allq
+            if rng.random() < 0.5:
+                ops += [rng.choice(("ctx_rule_on", "sys", "second"))] + allq
+            ops += ["ctx_off"] + allq + ["ctx_redef_on"] + allq + ["ctx_off", "ctx_off"] + allq
+            run_history(ops, world, rec, rng, "redefctx", pool=pool)
+            rec.count("redefining_context_histories")
+    elif spec["kind"] == "ctxkw":
+        # the same rule context plainly and with keyword overrides, nested and one after the other: an
+        # override belongs to its activation only, later plain activations answer like a fresh registry's
+        ctxq = [("convert", "nanometer", "terahertz"), ("convert", "joule", "hertz"), ("convert", "mile", "kilometer")]
+        for i in range(spec["n"]):
+            pool = ctxq + rng.sample(QUESTIONS, 5)
+            ask = lambda: ["q0", "q1"] + [f"q{rng.randrange(8)}" for _ in range(rng.randint(0, 2))]  # noqa: E731
+            ops = ask()
+            depth = 0
+            for _ in range(rng.randint(3, 9)):
+                r = rng.random()
+                if r < 0.3:
+                    ops.append("ctx_sp_on"); depth += 1
+                elif r < 0.6:
+                    ops.append("ctx_kw_on"); depth += 1
+                elif depth:
+                    ops.append("ctx_off"); depth -= 1
+                else:
+                    ops.append(rng.choice(("ctx_sp_on", "ctx_kw_on"))); depth += 1
+                ops += ask()
+            ops += ["ctx_off"] * depth + ["q0", "ctx_sp_on", "q0", "q1", "ctx_off", "q0"]
+            run_history(ops, world, rec, rng, "ctxkw", pool=pool)
+            rec.count("keyword_override_histories")
     elif spec["kind"] == "redefine":
         # an existing unit is defined again after answers about the units built on it were memoised
-        vq = [q for q in QUESTIONS if "vf" in repr(q)]
+        vq = [q for q in QUESTIONS if "vf" in repr(q) or "vpfx" in repr(q) or q[0] == "compact"]
         for i in range(spec["n"]):
             pool = rng.sample(vq, 8)
             reads = lambda: [f"q{rng.randrange(8)}" for _ in range(rng.randint(3, 10))]  # noqa: E731
-            ops = ["define", "define"] + reads()
+            ops = ["define", "define", "define"] + reads()
             if rng.random() < 0.4:
                 ops += [rng.choice(("sys", "ctx_rule_on", "second"))] + reads()
             ops += ["define"] + [f"q{j}" for j in range(8)]          # the redefinition, then every question
